@@ -688,6 +688,7 @@ func TestVerif_C11(t *testing.T) {
 			c.ToolError(err.Error())
 			return
 		}
+		defer bpfCleanup(dir)
 		v4, v6, err := loadLayouts(dir)
 		if err != nil {
 			c.ToolError(err.Error())
